@@ -1,7 +1,10 @@
 package net
 
 import (
+	"bytes"
+
 	vp "github.com/Tnze/go-mc/internal/zzvp"
+	pk "github.com/Tnze/go-mc/net/packet"
 )
 
 // Conn applies its threshold to both directions: two ends configured with the
@@ -11,5 +14,35 @@ func VP_C07_conn() {
 	vp.SizeBound(64)
 	a, b := vpConnPair(false, vpConnThreshold())
 	vpExchange(a, b)
+	vp.Cover("end")
+}
+
+// the Conn speaks the packet layer's format in each threshold class: what a Conn
+// writes is unpacked by the packet-level API with the same threshold, what the
+// packet-level API packs is read by the Conn (two Conns with the same wrong
+// idea of the format would still agree with each other).
+func VP_C07_conn_vs_packet() {
+	vp.SizeBound(64)
+	vp.PoolMode(1)
+	t := vpConnThreshold()
+	pa, pb := vpPipe()
+	a, b := WrapConn(pa), WrapConn(pb)
+	a.SetThreshold(t)
+	b.SetThreshold(t)
+	p := pk.Packet{ID: vpSmallID(), Data: vp.Bytes(vp.Choice(4))}
+	if vp.Choice(2) == 0 {
+		vp.Assert(a.WritePacket(p) == nil, "WritePacket")
+		var q pk.Packet
+		r := bytes.NewReader(*pa.out)
+		vp.Assert(q.UnPack(r, t) == nil && r.Len() == 0, "a frame written by a Conn is one frame of the packet layer")
+		vp.Assert(q.ID == p.ID && string(q.Data) == string(p.Data), "a frame written by a Conn unpacks to the packet")
+	} else {
+		var w bytes.Buffer
+		vp.Assert(p.Pack(&w, t) == nil, "Pack")
+		_, _ = pa.Write(w.Bytes())
+		var q pk.Packet
+		vp.Assert(b.ReadPacket(&q) == nil, "a frame packed by the packet layer is read by a Conn")
+		vp.Assert(q.ID == p.ID && string(q.Data) == string(p.Data), "a frame packed by the packet layer is read by a Conn")
+	}
 	vp.Cover("end")
 }
